@@ -30,7 +30,8 @@ def urange(s, c):
 def emit_unified_hunks(hs):
     out = b""
     for h in hs:
-        out += ("@@ -%s +%s @@\n" % (urange(h["os"], h["oc"]), urange(h["ns"], h["nc"]))).encode()
+        # (diff -p / -F: the name of the function the hunk is in follows the range)
+        out += ("@@ -%s +%s @@%s\n" % (urange(h["os"], h["oc"]), urange(h["ns"], h["nc"]), (" " + h["heading"]) if h.get("heading") else "")).encode("latin-1")
         for o, t, nl in h["body"]:
             out += o.encode() + lb(t, nl)
     return out
@@ -71,7 +72,7 @@ def groups(body):
 def emit_context_hunks(hs):
     out = b""
     for h in hs:
-        out += b"***************\n"
+        out += b"***************" + ((" " + h["heading"]).encode("latin-1") if h.get("heading") else b"") + b"\n"
         old, new = [], []
         has_old_change = has_new_change = False
         for g in groups(h["body"]):
